@@ -10,7 +10,8 @@ SPEC_PART = dict(
     assumptions=["compact sketches with fewer than 2^32 entries (the count field is a u32)"],
     covers="theta: deserialize(serialize(c)) = Ok c and deserialize(serialize_compressed(c)) = Ok c (equality of the whole compact "
            "sketch: entries in order, theta, seed hash, ordered, empty) for every well-formed c, every entry count incl. every "
-           "length mod 8 and every delta width 1..63; compact(ordered) of every reachable ThetaSketch is well-formed; bit-pack "
+           "length mod 8 and every delta width 1..63; compact(ordered) of every reachable ThetaSketch is well-formed, and so is every value "
+           "the reader returns (c_deserialize = Ok c -> c_wf c), so both round trips apply to deserialized values too; bit-pack "
            "reflection (sym_sound; pack/unpack blocks and BitPacker/BitUnpacker tails = big-endian bit stream for all widths and "
            "all inputs; stream fields = values mod 2^w). Tie: crate bytes = model bytes for both writers, crate deserialize dump = "
            "model, and a fork oracle on the crate alone (compact -> image -> value: equal dump, equal re-serialization), on sketches "
